@@ -118,6 +118,33 @@ func runC16Struct(c *Ctx, wl *walkLayers) {
 				}
 			}
 			if !found {
+				// ... or the whole rule set was found EMPTY on this path (the lookup is skipped when there is
+				// nothing to look up)
+				for k, v := range pc {
+					for _, form := range []struct {
+						pre  string
+						when int
+					}{{"lt(0,len(", 0}, {"eq(0,len(", 1}, {"gt(len(", 0}} {
+						if strings.HasPrefix(k, form.pre) && v == form.when && strings.Contains(k, "ruleMap[") {
+							inner := strings.TrimPrefix(k, form.pre)
+							if i := strings.LastIndex(inner, "))"); i >= 0 {
+								inner = inner[:i]
+							}
+							found = true
+							rmExpr = inner
+						}
+					}
+				}
+			}
+			if !found {
+				// ... or there is no table of rule sets at all (v.ruleMap == nil: nothing was ever registered)
+				for k, v := range pc {
+					if strings.HasPrefix(k, "eq(nil,") && strings.HasSuffix(k, "ruleMap)") && v == 1 {
+						found = true
+					}
+				}
+			}
+			if !found {
 				rep = append(rep, "tag rule used without consulting the programmatic rule set for the field")
 			}
 		} else {
